@@ -46,7 +46,7 @@ OPTIONS = {
     "autocomplete_name_only": (True, False), "lowercase_intrinsics": (True, False), "use_signature_help": (True, False),
     "hover_signature": (True, False), "hover_language": ("fortran", "f95"), "max_line_length": (40, 60),
     "max_comment_line_length": (30, 50), "disable_diagnostics": (True, False), "pp_suffixes": ([".f90"], [".fxx"]),
-    "include_dirs": (["incdir"], ["incdir2"]), "pp_defs": ({"FOO": "1"}, {"BAR": "2"}), "symbol_skip_mem": (True, False),
+    "include_dirs": (["incdir"], ["incdir2"]), "pp_defs": (["FOO"], {"BAR": "2"}), "symbol_skip_mem": (True, False),
     "enable_code_actions": (True, False),
 }
 OPT_NAMES = sorted(OPTIONS)
@@ -91,6 +91,8 @@ def cli_args(opts):
         if isinstance(v, bool):
             if v:
                 a.append("--" + k)
+        elif k == "pp_defs":
+            a += ["--" + k, json.dumps(v)]  # a JSON value on the command line: a dictionary or a list of names
         elif isinstance(v, (list, tuple)):
             a += ["--" + k] + list(v)
         elif isinstance(v, dict):
